@@ -6,8 +6,8 @@
    currentSize + deletion backlog + new size exceeds it (Properties/C17.v, C17_admission), and such a
    refusal changes nothing (C17_refusal_pure).  Here: what each write path makes of it.
    [SErr EInsufficient] = HTTP 507 Insufficient Storage / gRPC RESOURCE_EXHAUSTED — the retryable class.
-   AS THE CODE IS, two paths do not hand that class on: SpliceBlob answers Unknown and FetchBlob
-   NOT_FOUND (both reported to the coordinator); they are stated as they are. *)
+   (SpliceBlob and FetchBlob used to drop the class — findings F37, F38, repaired — and are part of the
+   statement now; the driver and the Example keep them as regression cases.) *)
 From BR Require Import Base.Prelude Gen.Front Model.LRU Proofs.LRU_inv Model.Disk Model.Front
   Proofs.Front_base Proofs.Front_ack Proofs.Front_limit Proofs.Front_hardlimit Proofs.Front_examples Bridge.Bridge_Front.
 Open Scope list_scope.
@@ -66,35 +66,28 @@ Theorem C17_paths_refusal_is_retryable :
      validate_hash ahash asize = true -> arlen <> 0 -> files ++ [so; se] = i :: t -> in_present i = true ->
      disk_put c d CAS (fst (inl_digest i)) (snd (inl_digest i)) (inl_stream i) (in_rnd i) = (d', Some e) ->
      update_ar c d ahash asize true files so se arlen rnd = (d', SErr (grpc_code e EInternal))) /\
-  grpc_code EInsufficient EInternal = EInsufficient.
-Proof.
-  intros c.
-  split; [exact (http_put_disk_refusal c)|]. split; [exact (http_put_ac_disk_refusal c)|].
-  split; [exact (bu_one_disk_refusal c)|]. split; [exact (bs_write_disk_refusal c)|].
-  split; [exact (update_ar_disk_refusal c)|]. split; [exact (update_ar_inlined_disk_refusal c)|exact retryable_class].
-Qed.
-Print Assumptions C17_paths_refusal_is_retryable.
-
-(* the statement one wants for the two remaining paths ... *)
-Definition C17_paths_splice_fetch_retryable_statement : Prop :=
-  forall c d dfn cs h s computed concat_ok cid rnd d',
-    splice c d dfn cs (Some (h, s)) computed concat_ok cid rnd = (d', SErr EInternal) -> False.
-(* ... is false of the code as it is: a SpliceBlob whose Put is refused by the hard limit answers
-   Unknown, and a FetchBlob whose store is refused treats the URI as failed and ends in NOT_FOUND *)
-Theorem C17_paths_splice_fetch_not_retryable :
-  (forall c d dfn cs h s computed concat_ok cid rnd total d2 d3 d' e,
+  (* SpliceBlob whose chunks were all read *)
+  (forall d dfn cs h s computed concat_ok cid rnd total d2 d3 d' e,
      (dfn = 0 \/ dfn = 1) -> cs <> [] -> check_chunks cs 0 = Some total -> total = s -> 0 < s ->
      (fc_grpc_max c > 0 -> s <= fc_grpc_max c) -> h <> emptySha256 -> hash_re h = true ->
      disk_contains c d CAS h s = (d2, false, -1) ->
      feed_chunks c d2 cs 0 = (d3, s, None) ->
      disk_put c d3 CAS h s (mkStream cid s false concat_ok s) rnd = (d', Some e) ->
-     splice c d dfn cs (Some (h, s)) computed concat_ok cid rnd = (d', SErr EInternal)) /\
-  (forall c d u h d' e,
+     splice c d dfn cs (Some (h, s)) computed concat_ok cid rnd = (d', SErr (grpc_code e EInternal))) /\
+  (* FetchBlob: RESOURCE_EXHAUSTED at once, no further URI is tried *)
+  (forall d u t h d',
      up_ok u = true -> 0 <= up_cl u ->
-     disk_put c d CAS h (up_cl u) (stream_of (up_body u)) (up_rnd u) = (d', Some e) ->
-     fetch_item c d u (Some h) = (d', None)).
-Proof. split; [exact splice_disk_refusal|exact fetch_item_disk_refusal]. Qed.
-Print Assumptions C17_paths_splice_fetch_not_retryable.
+     disk_put c d CAS h (up_cl u) (stream_of (up_body u)) (up_rnd u) = (d', Some EInsufficient) ->
+     fetch_uris c d (u :: t) (Some h) = (d', SErr EInsufficient, None)) /\
+  grpc_code EInsufficient EInternal = EInsufficient.
+Proof.
+  intros c.
+  split; [exact (http_put_disk_refusal c)|]. split; [exact (http_put_ac_disk_refusal c)|].
+  split; [exact (bu_one_disk_refusal c)|]. split; [exact (bs_write_disk_refusal c)|].
+  split; [exact (update_ar_disk_refusal c)|]. split; [exact (update_ar_inlined_disk_refusal c)|].
+  split; [exact (splice_disk_refusal c)|]. split; [exact (fetch_uris_disk_refusal c)|exact retryable_class].
+Qed.
+Print Assumptions C17_paths_refusal_is_retryable.
 
 (* the table the gRPC adapters use is the source's: 507 -> RESOURCE_EXHAUSTED, 400 -> InvalidArgument,
    404 -> NotFound, anything else -> the caller's default *)
